@@ -18,6 +18,61 @@ CHECKS = {
          'through the structure of the bisect lookup (all boundary classes occur within the bound).',
          'bounded-exhaustive enumeration of strings x positions x offsets on the real code, definitional oracle',
          'DESIGN.md section 4 C20'),
+ 'C01': ('exploration',
+         'Every word of length <= 5/6 over 13 raw characters, <= 3/4 over 28 lexemes (default context) and every macro of a custom context with every standard '
+         'argument type followed by every word of length <= 3/4 over 15 argument characters, plus all generated documents of the document grammar (derivations '
+         'up to size 3/4, <= 1-3 whitespace/comment deviations), is parsed strictly and every accepted tree is checked against the full cover invariants '
+         '(tiling of the top level, verbatim concatenation, nesting/order of children, chars/comment text = slice, delimiters at the ends, group/math bodies tile '
+         'the span between delimiters); tolerant parses are checked for range/nesting. Exhaustive within the bounds.',
+         'Trusted: the invariant checker mc/cover.py (pure function of the returned tree and the input). Gaps between a call node\'s children are allowed (skipped whitespace/comments).',
+         'bounded-exhaustive words + derivations with bounded deviations, structural invariants on every returned tree',
+         'DESIGN.md section 4 C01'),
+ 'C02': ('exploration',
+         'Every derivation of the document grammar (text, groups, symbols, calls for every signature over {*,[,{,m,o,s,t,r,d,v,AnyDelimited} with every optional slot present/absent and '
+         'mandatory slots as group / single char / control sequence, environments with arguments, math and verbatim bodies, four math forms, comments, specials, paragraph breaks, '
+         '\\verb, nested brackets in optional arguments) up to size 3 (quick) / 4 (thorough), in default syntax and with every placement of <= 1-3 whitespace/comment deviations, under the '
+         'default context and a custom context with and without unknown-macro fallback: the strict parse must have exactly the structure written (whitespace-insensitive skeleton).',
+         'Trusted: the generator mc/docgen.py (it states the expected structure); renderings that LaTeX itself reads differently are excluded and listed in DESIGN.md. Whitespace ownership is decided by C01/C03.',
+         'exhaustive derivations with bounded deviations on the real parser; expected structure by construction',
+         'DESIGN.md section 4 C02'),
+ 'C05': ('fault_enumeration',
+         'All words of the C01 sweep spaces parsed strictly: outcome is a tree or LatexWalkerParseError with 0 <= pos <= len and matching line/column. Every generated well-formed document '
+         '(size <= 2 quick / <= 3 thorough) x every token boundary outside verbatim/comments x each of 10 structural faults ({ } $ $$ \\( \\) \\[ \\] \\begin \\end) must be rejected.',
+         'Trusted: the generator\'s notion of token boundary; parity/counting argument that one extra delimiter cannot be balanced (verbatim text is inert in fault documents; $$ is injected in text mode only).',
+         'bounded-exhaustive words + exhaustive single-fault injection at every token boundary',
+         'DESIGN.md section 4 C05'),
+ 'C06': ('fault_enumeration',
+         'All words of the sweep spaces in tolerant mode: terminates (CPU watchdog), raises nothing, equals the strict tree whenever the strict parse succeeds. Every generated document U ending in a '
+         'closed construct followed by every stray closer and every garbage word of length <= 1 (2): result is not None and its leading nodes are exactly the strict tree of U.',
+         'Trusted: canonical tree dump mc/canon.py; U is well formed by construction. "nodes parsed before the first error" is decided at the top level only.',
+         'bounded-exhaustive tolerant-vs-strict differential + exhaustive stray-closer/garbage suffix enumeration',
+         'DESIGN.md section 4 C06'),
+ 'C07': ('exploration',
+         'Every word of length <= 4/5 over raw characters and <= 3/4 over lexemes, and every macro name (1000+) / environment name of the default walker and text databases in 17 / 8 argument frames, '
+         'each under all 128 combinations of math_mode x strict_latex_spaces x keep_comments x keep_braced_groups x fill_text: latex_to_text returns a str, raises nothing, within the CPU budget.',
+         'Trusted: the documented equivalence latex_to_text(s) == nodelist_to_text(tolerant parse) used for 120 of the 128 option sets (the other 8 call latex_to_text itself and are compared).',
+         'bounded-exhaustive words + exhaustive name x frame x option sweep',
+         'DESIGN.md section 4 C07'),
+ 'C09': ('model_checking',
+         'Explicit-state search over call histories: every sequence of <= 3 (quick) / 4 (thorough) parse calls over a 10-entry menu touching every shared mutable object (process-wide standard-argument parser cache, '
+         'lazily built inner parsers, cached default context, one custom context per process). Each history runs in a pristine forked process; after every call its canonical result must equal the '
+         'fresh-interpreter baseline of that call and the context database must be unchanged.',
+         'Trusted: fork of a never-parsing parent as initial state; canonical dumps. The state is the history itself (no merging), so no abstraction argument is needed.',
+         'explicit-state exploration of call histories on the implementation, differential against fresh-interpreter baselines',
+         'DESIGN.md section 4 C09'),
+ 'C10': ('exploration',
+         'All words of length <= 6/7 over {$ a { } space \\( \\) \\[ \\]} against a reference recursive-descent parser (accept/reject, shape, delimiters, displaytype, per-node mode); all generated documents '
+         'of C02 and all derivations up to size 4/5 of a math-nesting grammar (\\text in math, math in \\text in math, \\ensuremath, equation, groups): every node\'s (in_math_mode, math_mode_delimiter) equals the inherited attribute of the derivation.',
+         'Trusted: mc/ref/mathlang.py (60 lines, the documented delimiter rules) and the generator\'s mode attributes.',
+         'bounded-exhaustive words vs reference model + exhaustive derivations with modes by construction',
+         'DESIGN.md section 4 C10'),
+ 'C19': ('exploration',
+         'On every tree from the strict parse of all generated documents and the tolerant parse of all short words (incl. trees with None bodies / None arguments) a recording visitor is run; its callback sequence, '
+         'node identities and per-keyword child results must equal an independent post-order walk over public attributes (arguments in slot order with None placeholders, parsed-arguments object, body, node).',
+         'Trusted: the 40-line reference walk in mc/checks/c19.py including the documented conventions for None bodies.',
+         'bounded-exhaustive trees, recorded callbacks vs independent post-order walk',
+         'DESIGN.md section 4 C19'),
+
  'C11': ('model_checking',
          'Explicit-state exploration of the real LatexTokenReader: every state (remaining input, configuration) for all words of length '
          '<= 3 (quick) / 4 (thorough) over a 15-symbol alphabet x 6172 configurations (math mode and delimiter, 2^7 enable_* switches, extra group '
